@@ -17,12 +17,12 @@ def realise_fb(g, ref="N%d"):
     return t
 
 
-def realise_struct(g, alias=False, ref="N%d"):
+def realise_struct(g, alias=False, ref="N%d", aliases_twice=False):
     t = ""
     for i in range(1, g["n"] + 1):
         o = outs(g, i)
         if alias and len(o) == 1:
-            t += "TYPE\n  N%d : %s;\nEND_TYPE\n" % (i, ref % o[0])
+            t += ("TYPE\n  N%d : %s;\nEND_TYPE\n" % (i, ref % o[0])) * (2 if aliases_twice else 1)
             continue
         t += "TYPE\n  N%d : STRUCT\n" % i
         for j in o:
@@ -50,19 +50,39 @@ def realise_mixed(g, parity):
     return t
 
 
-def realise_enum_alias(g):
-    """only for graphs whose out-degrees are all <= 1: enumeration aliases; a sink is the enumeration itself"""
+def realise_enum_alias(g, aliases_twice=False, qualified=False):
+    """only for graphs whose out-degrees are all <= 1: enumeration aliases; a sink is the enumeration itself.
+    aliases_twice: every ALIAS declaration is written twice (the enumerations once): duplicates that must be reported -
+    and a walk that follows declarations instead of names has 2^depth paths.
+    qualified: the user's variables have initial values written with the prefix of ANOTHER alias of the same enumeration
+    (u1 : N1 := N2#V3) - the same value, and no reference between the two aliases."""
     t = ""
+    sink = {}
+
+    def sink_of(i, seen=()):
+        o = outs(g, i)
+        if not o:
+            return i
+        if i in seen:
+            return None
+        return sink_of(o[0], seen + (i,))
+
     for i in range(1, g["n"] + 1):
+        sink[i] = sink_of(i)
         o = outs(g, i)
         if not o:
             t += "TYPE\n  N%d : (V%d, W%d) := V%d;\nEND_TYPE\n" % (i, i, i, i)
         else:
-            t += "TYPE\n  N%d : N%d;\nEND_TYPE\n" % (i, o[0])
+            t += ("TYPE\n  N%d : N%d;\nEND_TYPE\n" % (i, o[0])) * (2 if aliases_twice else 1)
     # a user so that the alias chain is walked
     t += "FUNCTION_BLOCK USER\n  VAR\n"
     for i in range(1, g["n"] + 1):
-        t += "    u%d : N%d;\n" % (i, i)
+        init = ""
+        if qualified and sink[i] is not None:
+            others = [j for j in range(1, g["n"] + 1) if j != i and sink[j] == sink[i] and outs(g, j)]
+            if others:
+                init = " := N%d#V%d" % (others[(i * 7) % len(others)], sink[i])
+        t += "    u%d : N%d%s;\n" % (i, i, init)
     t += "  END_VAR\nEND_FUNCTION_BLOCK\n"
     return t
 
